@@ -298,3 +298,99 @@ func checkSchedulerAdmission(c *core.Ctx, r *core.Report) {
 		}
 	}
 }
+
+// checkSortLimitCut — C05 clause (10).  The sort command keeps the best rows seen so far in
+// sortProcessor.resultsSoFar and hands that out at the end; `sort N` means at most N rows come out, whatever the
+// batching.  Every IQR stored into resultsSoFar — by Process or by a method of the processor it calls — is cut to
+// the limit: IQR.DiscardAfter is called with the command's Limit on that very IQR before the store, or on every
+// path from the store to a return that does not report an error.  (IQR.Sort's limit argument is a top-N selection
+// hint that is only honoured for small limits; it is not a cut.)
+func checkSortLimitCut(c *core.Ctx, r *core.Report) {
+	resF := c.Field(pkgProcessor, "sortProcessor.resultsSoFar")
+	limitF := c.Field("pkg/segment/structs", "SortExpr.Limit")
+	discard := c.Obj("pkg/segment/query/iqr", "IQR.DiscardAfter")
+	sortT := c.NamedType(pkgProcessor, "sortProcessor")
+	fromLimit := func(v ssa.Value) bool {
+		for _, o := range c.Origins(v, 1) {
+			if o.Kind == "field" && o.Obj == types.Object(limitF) {
+				return true
+			}
+		}
+		return false
+	}
+	n := 0
+	for _, fn := range c.RepoFunctions() {
+		recv := fn.Signature.Recv()
+		if recv == nil {
+			continue
+		}
+		rt := recv.Type()
+		if p, ok := rt.(*types.Pointer); ok {
+			rt = p.Elem()
+		}
+		if !types.Identical(rt, sortT) {
+			continue
+		}
+		k := 0
+		for _, b := range fn.Blocks {
+			for _, in := range b.Instrs {
+				st, ok := in.(*ssa.Store)
+				if !ok {
+					continue
+				}
+				fa, ok := st.Addr.(*ssa.FieldAddr)
+				if !ok || core.FieldOfAddr(fa) != resF || core.IsNilConst(st.Val) {
+					continue
+				}
+				n++
+				k++
+				construct := fmt.Sprintf("%s:resultsSoFar-store#%d-is-cut-to-the-limit", shortFn(fn), k)
+				// a cut of the stored IQR: DiscardAfter(Limit) on the stored value, or on a load of the field
+				isCut := func(x ssa.Instruction) bool {
+					call, ok := x.(*ssa.Call)
+					if !ok || !core.IsCallTo(call, discard) || len(call.Call.Args) < 2 || !fromLimit(call.Call.Args[1]) {
+						return false
+					}
+					rcv := call.Call.Args[0]
+					if rcv == st.Val {
+						return true
+					}
+					if ld, ok := rcv.(*ssa.UnOp); ok {
+						if lfa, ok := ld.X.(*ssa.FieldAddr); ok && core.FieldOfAddr(lfa) == resF {
+							return true
+						}
+					}
+					return false
+				}
+				before := false
+				for _, bb := range fn.Blocks {
+					for _, x := range bb.Instrs {
+						if isCut(x) && core.InstrDominates(x, st) {
+							if call := x.(*ssa.Call); call.Call.Args[0] == st.Val {
+								before = true
+							}
+						}
+					}
+				}
+				var leak ssa.Instruction
+				if !before {
+					core.WalkForward(fn, st, func(x ssa.Instruction) bool {
+						if isCut(x) {
+							return false
+						}
+						if ret, ok := x.(*ssa.Return); ok && core.ReturnSuccess(ret) != core.No && leak == nil {
+							leak = ret
+						}
+						return true
+					})
+				}
+				if leak != nil {
+					r.Violation("BOUND", construct, c.Pos(st.Pos()), "an IQR is kept as the sort command's result so far without being cut to the command's limit (no DiscardAfter(Limit) on it before the store or before the function returns): with a single large batch, or a limit above the top-N threshold of IQR.Sort, `sort N` returns more than N rows")
+				} else {
+					r.OK("BOUND", construct, c.Pos(st.Pos()), "cut to the limit before it is stored or before the function returns")
+				}
+			}
+		}
+	}
+	r.Floor("BOUND", "stores of the sort command's result so far", n, 2)
+}
